@@ -5,7 +5,7 @@ From Coq Require Import ZArith List Bool Reals QArith Lia Lra.
 From Coquelicot Require Import Coquelicot.
 From CV Require Import Base.Num Base.RNum C06.RestraintModel C06.RestraintSched C06.RestraintTI C06.RestraintWork
   C06.RestraintHist C06.RestraintProofs C18.ValueModel C18.ValueProofs C18.ExtraProofs C06.RestraintManifold
-  C06.RestraintGen C06.RestraintGenProofs.
+  C06.RestraintGen C06.RestraintGenProofs C06.TIEstimator.
 Import ListNotations.
 
 (* ---- closed-form potentials (R instance of the model) ------------------------------------------ *)
@@ -278,6 +278,25 @@ Theorem C06_ti_line_once_per_stage : forall T (O : NumOps T) (c : rcfg) (evs : l
   is_new (run O c evs) e = true /\ ((m_it (run O c evs) + 1 - c_it0 c) mod c_nsteps c = 0)%Z.
 Proof. intros T O c evs e H1 H2 H3 H4 H5 H6. exact (ti_line_only_at_stage_end O c H1 H2 H3 H4 H5 evs e H6). Qed.
 Print Assumptions C06_ti_line_once_per_stage.
+
+(* ---- the TI estimator attached to a bias (colvarbias_ti, writeTISamples / writeTIPMF), every carrier, every segmentation ----
+   After ANY history the count and sum grids hold exactly the samples of the specification ti_samples: every NEW step (an
+   engine step that is not the first computation) contributes ONE sample - with same-step total forces its own total force
+   in the bin of its own value; with lagged total forces (its total force - the force this bias applied at the preceding
+   computation) in the bin of the preceding computation's value; steps computed again (run boundary, restart) add nothing. *)
+Theorem C06_ti_estimator_samples : forall T (O : NumOps T) (c : ticfg) (it0 : Z) (evs : list tievent) (b : Z),
+  ts_cnt (tm_st (ti_run O c it0 evs)) b = cnt_of (ti_samples O c None evs) b /\
+  ts_sum (tm_st (ti_run O c it0 evs)) b = sum_of O (ti_samples O c None evs) b.
+Proof. exact @ti_estimator_samples. Qed.
+Print Assumptions C06_ti_estimator_samples.
+
+(* ... and with lagged forces that sample is the SYSTEM force of the preceding computation whenever the engine's total force
+   is system force + the force this bias applied there *)
+Theorem C06_ti_estimator_lagged_system_force : forall (c : @ticfg R) (p i : @tiin R) (sys : R),
+  ti_same c = false -> in_tf i = (sys + in_fb p)%R ->
+  ti_here Rops c (Some p) (TStep i) = if bin_ok c (bin_of Rops c (in_x p)) then [(bin_of Rops c (in_x p), sys)] else [].
+Proof. exact ti_lagged_sample_is_system_force. Qed.
+Print Assumptions C06_ti_estimator_lagged_system_force.
 
 (* ---- non-vacuity and regression examples (rational carrier, vm_compute) ------------------------- *)
 (* a 3-stage lambda schedule run in one segment reaches the last stage with the last force constant *)
